@@ -33,7 +33,7 @@ def classified : List (String × Bool) := [
   ("verit_bind", false),
   ("verit_bool_simplify", true),
   ("verit_comp_simplify", true),
-  ("verit_cong", false),
+  ("verit_cong", true),
   ("verit_conj_pts", false),
   ("verit_connective_def", true),
   ("verit_contraction", true),
